@@ -457,6 +457,14 @@ func slicesEqual(x, y any) (err error) {
 		_, xv, _ := derefPtr(xrv.Index(i).Type(), xrv.Index(i))
 		_, yv, _ := derefPtr(yrv.Index(i).Type(), yrv.Index(i))
 
+		// nil pointer elements are equal only to each other
+		if !xv.IsValid() || !yv.IsValid() {
+			if xv.IsValid() != yv.IsValid() {
+				err = errorf("Nil element mismatch")
+			}
+			continue
+		}
+
 		// Get primitives out of the way
 		var tried bool
 		if tried, err = primitivesEqual(xv, yv); tried {
